@@ -65,6 +65,11 @@ func (core *JApiCore) getIncludedFilePath(keyword *scanner.Lexeme) (string, *jer
 		if info.IsDir() {
 			return "", incorrectParameter(keyword, path, "is a directory")
 		}
+		if !info.Mode().IsRegular() {
+			// Reading a named pipe blocks until somebody writes into it, a device may
+			// never end.
+			return "", incorrectParameter(keyword, path, "is not a regular file")
+		}
 		return absolutePath, nil
 	}
 
